@@ -131,17 +131,17 @@ func (r *Run) sortedOrigin(fn *ssa.Function, v ssa.Value, use ssa.Instruction, d
 
 // C19 — result statistics.
 func C19(p *Prog, r *Run) {
-	r.Explanation = "Decided: (1) every Floats method except Sum returns math.NaN() (both elements for MeanVariance) on the path where len(x)==0 and that test dominates the gonum call; (2) gonum preconditions, keyed by the library function: stat.Quantile gets a constant level in [0,1], the Empirical kind, nil weights and a slice on which a sort call dominates the use (a sorted copy), floats.Min/Max never see an empty slice; (3) each method returns the result of the gonum function the table names (Mean→stat.Mean, …, Median/Q25/Q75→Quantile 0.5/0.25/0.75); (4) the experiment/trial aggregates are built from the recorded generations as their definitions say (success rate = solved/len, solved = any generation solved, epochs per trial = len(Generations), diversity, best organism chosen on a fresh slice; the solved count is the loop counter on every return, never a remembered value); (5) the complexity of an organism is Complexity() of the network returned by its Phenotype(), asked only when Phenotype() reported no error, with the math.MaxInt sentinel confined to a missing organism/champion or a failed phenotype. Results are followed through phi nodes edge by edge, so an early return and a single return of a merged value are the same to the rules; a quantile level may be a parameter of an unexported helper when every call in the repository passes a constant in [0,1]. Not decided: gonum's numerics; full recomputation equalities."
+	r.Explanation = "Decided: (1) every Floats method except Sum returns math.NaN() (both elements for MeanVariance) on the path where len(x)==0 and that test dominates every gonum call of the method (a method built only from other accessors of the type, which are NaN there themselves, needs no test of its own); (2) gonum preconditions, keyed by the library function: stat.Quantile gets a constant level in [0,1], the Empirical kind, nil weights and a slice on which a sort call dominates the use (a sorted copy), floats.Min/Max never see an empty slice; (3) on every path for a non-empty series each method returns the quantity of its definition (Mean→stat.Mean, …, Median/Q25/Q75→Quantile 0.5/0.25/0.75), applied to the series itself without weights, written either as the canonical gonum call or as an expression that gonum v0.14.0 defines to be the same value (stat.Variance = second result of stat.MeanVariance, stat.StdDev = second result of stat.MeanStdDev = math.Sqrt of the variance, stat.Mean = first result of MeanVariance/MeanStdDev = floats.Sum/float64(len), floats.Min = x[floats.MinIdx(x)], another accessor of the type for its own quantity; table with reasons in robust_c19.go), the population variants (divide by n) and hand-written loops are not accepted; (4) the experiment/trial aggregates are built from the recorded generations as their definitions say (success rate = solved/len, solved = any generation solved, epochs per trial = len(Generations), diversity, best organism chosen on a fresh slice; the solved count is the loop counter on every return, never a remembered value); (5) the complexity of an organism is Complexity() of the network returned by its Phenotype(), asked only when Phenotype() reported no error, with the math.MaxInt sentinel confined to a missing organism/champion or a failed phenotype. Results are followed through phi nodes edge by edge, so an early return and a single return of a merged value are the same to the rules; a quantile level may be a parameter of an unexported helper when every call in the repository passes a constant in [0,1]. Not decided: gonum's numerics; full recomputation equalities."
 	r.Rule("C19.1", "empty guard: each Floats method except Sum returns NaN when len(x)==0, and the emptiness test dominates the library call", func() {
 		n := 0
 		for _, sp := range floatsTable {
 			fn := p.Func(PkgE, "Floats."+sp.method)
 			r.Fn(FuncName(fn))
 			tm := NewTermer(fn)
-			calls := CallsNamed(fn, sp.callee)
-			if len(calls) == 0 {
-				continue // reported by C19.3
-			}
+			q := c19Quant{p: p, self: sp.method}
+			// the library calls of the method: whatever gonum function it uses (C19.3 decides whether it is the
+			// right one), each has a precondition or an undefined result on the empty series
+			calls := c19GonumCalls(fn)
 			if !sp.guard {
 				r.OK("Floats."+sp.method, p.Pos(fn.Pos()), "no guard required (the library returns 0 for an empty sum)")
 				n++
@@ -155,33 +155,42 @@ func C19(p *Prog, r *Run) {
 						guarded = true
 					}
 				}
+				cn, _ := calleeName(c.Common())
 				r.Check(guarded, "Floats."+sp.method+".guard", p.Pos(c.Pos()), "the library call is reached only when len(x) != 0",
-					"the call of "+sp.callee+" is not dominated by a len(x)==0 test: an empty series reaches the library (panic or undefined result instead of NaN)")
+					"the call of "+cn+" is not dominated by a len(x)==0 test: an empty series reaches the library (panic or undefined result instead of NaN)")
+			}
+			if len(calls) == 0 {
+				r.OK("Floats."+sp.method+".guard", p.Pos(fn.Pos()), "the method calls no library function itself (C19.3 decides what it is built from)")
 			}
 			// NaN on the empty path: every way the result is produced under len(x)==0 - a return in the
 			// guarded block, or a value that reaches a merged return over an edge on which len(x)==0 holds
-			nan := 0
-			for _, lf := range retLeaves(fn, 0) {
-				onEmpty := false
-				for _, g := range lf.Guards {
-					if empty, ok := lenGuard(tm, g, "recv"); ok && empty {
-						onEmpty = true
+			nan, delegated := 0, 0
+			leaves := retLeaves(fn, 0)
+			for _, lf := range leaves {
+				if !c19OnEmpty(tm, lf, "recv") {
+					// produced without a test of the length at all: NaN on the empty series when it is built
+					// from accessors that are NaN there themselves
+					if len(lf.Guards) == 0 && q.nanOnEmpty(tm.Of(lf.Val)) {
+						delegated++
 					}
-				}
-				if !onEmpty {
 					continue
 				}
 				rt := tm.Of(lf.Val)
 				okRet := rt.String() == "math.NaN()"
 				if sp.method == "MeanVariance" {
-					// the pair {NaN, NaN}: both elements of the returned literal are results of math.NaN()
-					okRet = sliceLitAll(fn, lf.Val, 2, func(v ssa.Value) bool { return tm.Of(v).String() == "math.NaN()" })
+					// the pair {NaN, NaN}: both elements of the returned fresh slice are results of math.NaN()
+					els, isPair := c19FreshElems(lf.Val, 2, lf.Block)
+					okRet = isPair && tm.Of(els[0]).String() == "math.NaN()" && tm.Of(els[1]).String() == "math.NaN()"
 				}
 				r.Check(okRet, "Floats."+sp.method+".nan", p.Pos(lf.Ret.Pos()), "returns NaN for an empty series", fmt.Sprintf("the empty-series path returns %s, expected NaN", rt))
 				nan++
 			}
 			if nan == 0 {
-				r.Bad("Floats."+sp.method+".nan", p.Pos(fn.Pos()), "no return under len(x)==0: an empty series does not yield NaN")
+				if delegated > 0 && delegated == len(leaves) {
+					r.OK("Floats."+sp.method+".nan", p.Pos(fn.Pos()), "NaN for an empty series through the accessors it is built from")
+				} else {
+					r.Bad("Floats."+sp.method+".nan", p.Pos(fn.Pos()), "no return under len(x)==0: an empty series does not yield NaN")
+				}
 			}
 			n++
 		}
@@ -220,59 +229,55 @@ func C19(p *Prog, r *Run) {
 		r.Floor("stat.Quantile call sites", n, 3)
 	})
 
-	r.Rule("C19.3", "right callee: each Floats method returns the result of the library function its definition names", func() {
+	r.Rule("C19.3", "right callee: each Floats method returns, for a non-empty series, the result of the library function its definition names or an expression the library defines to be that result", func() {
 		for _, sp := range floatsTable {
 			fn := p.Func(PkgE, "Floats."+sp.method)
 			tm := NewTermer(fn)
-			calls := CallsNamed(fn, sp.callee)
-			if len(calls) != 1 {
-				r.Bad("Floats."+sp.method+".callee", p.Pos(fn.Pos()), fmt.Sprintf("%s calls %s %d times, expected exactly once", sp.method, sp.callee, len(calls)))
-				continue
-			}
-			c := calls[0]
-			args := callArgTerms(tm, c.Common())
-			ok := true
-			why := ""
-			if sp.level != "" {
-				if args[0].String() != sp.level {
-					ok, why = false, "quantile level "+args[0].String()+", expected "+sp.level
+			q := c19Quant{p: p, self: sp.method}
+			// every way the method produces its result for a non-empty series is the quantity of its definition,
+			// written as one of the expressions of the equivalence table (robust_c19.go)
+			nOK := 0
+			var bad []string
+			var shown string
+			pos := p.Pos(fn.Pos())
+			for _, lf := range retLeaves(fn, 0) {
+				if sp.guard && c19OnEmpty(tm, lf, "recv") {
+					continue // the empty series: C19.1
 				}
-			} else if args[0].Op != "recv" {
-				ok, why = false, "applied to "+args[0].String()+", expected the series itself"
-			}
-			// the non-empty return is this call's result
-			retOK := false
-			for _, b := range fn.Blocks {
-				if ret, isRet := b.Instrs[len(b.Instrs)-1].(*ssa.Return); isRet {
-					// the call's result is returned directly or is what a merged result is on one of its edges
-					for _, lf := range retLeaves(fn, 0) {
-						if lf.Ret == ret && tm.Of(lf.Val).V == c.Value() {
-							retOK = true
+				t := tm.Of(lf.Val)
+				ok := false
+				switch {
+				case sp.level != "":
+					// stat.Quantile(level, ...): kind, sorted input and weights are the obligations of C19.2
+					if a, isQ := q.lib(t, c19PkgStat, "Quantile"); isQ && len(a) == 4 {
+						if ok = a[0].String() == sp.level; !ok {
+							bad = append(bad, "quantile level "+a[0].String()+", expected "+sp.level)
+							continue
 						}
 					}
-					if sp.method == "MeanVariance" {
-						// slice literal {m, v}
-						st := 0
-						for _, in := range b.Instrs {
-							if s, isSt := in.(*ssa.Store); isSt {
-								if ia, isIA := s.Addr.(*ssa.IndexAddr); isIA {
-									v := tm.Of(s.Val)
-									if v.Op == "extract" && v.Args[0].V == c.Value() && tm.Of(ia.Index).String() == fmt.Sprint(v.Idx) {
-										st++
-									}
-								}
-							}
-						}
-						if st == 2 {
-							retOK = true
-						}
+				case sp.method == "MeanVariance":
+					if els, isPair := c19FreshElems(lf.Val, 2, lf.Block); isPair {
+						e0, e1 := tm.Of(els[0]), tm.Of(els[1])
+						ok = q.Is("Mean", e0) && q.Is("Variance", e1)
+						t = &Term{Op: "call", Name: "pair", Args: []*Term{e0, e1}}
 					}
+				default:
+					ok = q.Is(sp.method, t)
+				}
+				if ok {
+					nOK++
+					shown = t.String()
+					if in, isIn := lf.Val.(ssa.Instruction); isIn && in.Pos().IsValid() {
+						pos = p.Pos(in.Pos())
+					}
+				} else {
+					bad = append(bad, "returns "+t.String()+", which is not "+sp.callee+" of the series (nor an expression defined to be the same quantity)")
 				}
 			}
-			if !retOK {
-				ok, why = false, "the library result is not what the method returns"
+			if nOK == 0 && len(bad) == 0 {
+				bad = append(bad, "no result for a non-empty series")
 			}
-			r.Check(ok, "Floats."+sp.method+".callee", p.Pos(c.Pos()), sp.method+" = "+tm.Of(c.Value()).String(), sp.method+": "+why)
+			r.Check(len(bad) == 0, "Floats."+sp.method+".callee", pos, sp.method+" = "+shown, sp.method+": "+strings.Join(bad, "; "))
 		}
 	})
 
@@ -351,17 +356,32 @@ func C19(p *Prog, r *Run) {
 			fn, list string
 			res      int
 			want     string
+			// alt: the same value with a pinned helper written out in place. Generation.Average(g)#k is
+			// Floats.Mean of g's k-th recorded series by the obligation "Generation.Average" below, so the
+			// mean of that series of element i is the same statistic of element i.
+			alt string
 		}
 		table := []em{
-			{"Experiment.BestFitness", "recv.Trials", 0, "Trial.BestOrganism(&recv.Trials[*],false)#0.Fitness"},
-			{"Experiment.BestSpeciesAge", "recv.Trials", 0, "float64(Trial.BestOrganism(&recv.Trials[*],false)#0.Species.Age)"},
-			{"Experiment.BestComplexity", "recv.Trials", 0, "float64(organismComplexity(Trial.BestOrganism(&recv.Trials[*],false)#0))"},
-			{"Trial.ChampionsFitness", "recv.Generations", 0, "&recv.Generations[*].Champion.Fitness"},
-			{"Trial.ChampionSpeciesAges", "recv.Generations", 0, "float64(&recv.Generations[*].Champion.Species.Age)"},
-			{"Trial.ChampionsComplexities", "recv.Generations", 0, "float64(Generation.ChampionComplexity(&recv.Generations[*]))"},
-			{"Trial.Average", "recv.Generations", 0, "Generation.Average(&recv.Generations[*])#0"},
-			{"Trial.Average", "recv.Generations", 1, "Generation.Average(&recv.Generations[*])#1"},
-			{"Trial.Average", "recv.Generations", 2, "Generation.Average(&recv.Generations[*])#2"},
+			{"Experiment.BestFitness", "recv.Trials", 0, "Trial.BestOrganism(&recv.Trials[*],false)#0.Fitness", ""},
+			{"Experiment.BestSpeciesAge", "recv.Trials", 0, "float64(Trial.BestOrganism(&recv.Trials[*],false)#0.Species.Age)", ""},
+			{"Experiment.BestComplexity", "recv.Trials", 0, "float64(organismComplexity(Trial.BestOrganism(&recv.Trials[*],false)#0))", ""},
+			{"Trial.ChampionsFitness", "recv.Generations", 0, "&recv.Generations[*].Champion.Fitness", ""},
+			{"Trial.ChampionSpeciesAges", "recv.Generations", 0, "float64(&recv.Generations[*].Champion.Species.Age)", ""},
+			{"Trial.ChampionsComplexities", "recv.Generations", 0, "float64(Generation.ChampionComplexity(&recv.Generations[*]))", ""},
+			{"Trial.Average", "recv.Generations", 0, "Generation.Average(&recv.Generations[*])#0", "Floats.Mean(&recv.Generations[*].Fitness)"},
+			{"Trial.Average", "recv.Generations", 1, "Generation.Average(&recv.Generations[*])#1", "Floats.Mean(&recv.Generations[*].Age)"},
+			{"Trial.Average", "recv.Generations", 2, "Generation.Average(&recv.Generations[*])#2", "Floats.Mean(&recv.Generations[*].Complexity)"},
+		}
+		isWanted := func(e em, vt *Term) bool {
+			got := strings.NewReplacer(" ", "", "&", "").Replace(vt.String())
+			if got == strings.ReplaceAll(e.want, "&", "") {
+				return true
+			}
+			if e.alt == "" || got != strings.ReplaceAll(e.alt, "&", "") {
+				return false
+			}
+			// the written-out form names the experiment package's own Floats.Mean
+			return isCallTo(vt, p.Func(PkgE, "Floats.Mean"))
 		}
 		for _, e := range table {
 			fn := p.Func(PkgE, e.fn)
@@ -395,7 +415,7 @@ func C19(p *Prog, r *Run) {
 				ia := st.Addr.(*ssa.IndexAddr)
 				vt := tm.Of(st.Val)
 				got = append(got, vt.String())
-				if strings.NewReplacer(" ", "", "&", "").Replace(vt.String()) != strings.ReplaceAll(e.want, "&", "") {
+				if !isWanted(e, vt) {
 					okElem = false
 				}
 				// same index on both sides: the element index of the list read equals the index written
@@ -420,7 +440,7 @@ func C19(p *Prog, r *Run) {
 							ia := st.Addr.(*ssa.IndexAddr)
 							vt := tm.Of(st.Val)
 							got = append(got, vt.String())
-							if strings.NewReplacer(" ", "", "&", "").Replace(vt.String()) != strings.ReplaceAll(e.want, "&", "") {
+							if !isWanted(e, vt) {
 								okElem = false
 							}
 							same := false
